@@ -541,6 +541,13 @@ func (p *Parser) parseOption(s *parseState, name string, option *Option, canarg 
 
 		if argument != nil {
 			arg = *argument
+
+			// A custom validator decides for every spelling of the option
+			if validator := option.isValueValidator(); validator != nil {
+				if validationErr := validator.IsValidValue(arg); validationErr != nil {
+					return newError(ErrExpectedArgument, validationErr.Error())
+				}
+			}
 		} else {
 			arg = s.pop()
 
